@@ -117,6 +117,10 @@ class Stubs:
         name = st.name
         if st.kind == 'builtin':
             m = getattr(self, 'b_' + name, None)
+            if m is not None and name not in ('min', 'max', 'list', 'dict') and any(isinstance(a, Pack) for a in args):
+                # f(*xs) with an argument list of unknown length: the stub is written for explicit arguments
+                ex.event('unmodelled_call', name + '(*args)')
+                return self.unknown_call(ex, 'builtin %s(*args)' % name, [])
             if m is not None:
                 return m(ex, self.args_vals(ex, args) if name not in ('min', 'max', 'list', 'dict') else args, kwargs)
             if name in L.EXC_PARENT:
@@ -744,6 +748,19 @@ class Stubs:
             x = ex.known(z3.Select(arr, 0))
             ex.assume_elem(x)
             return x
+        if isinstance(f, (St, Closure)):
+            # a function of the package itself: not a host callable - one arbitrary step of the fold is executed
+            # (first step: the given initial value; a later step: whatever an earlier step returned)
+            if len(args) >= 3 and ex.branch(ex.fresh_bool('first_step'), 'reduce-first-step'):
+                acc = ex.to_val(args[2])
+            else:
+                acc = ex.fresh_val('acc')
+                ex.known(acc)
+                ex.assume_elem(acc)
+            x = ex.fresh_val('elem')
+            ex.known(x)
+            ex.assume_elem(x)
+            return self.engine.calls.call_value(ex, f, [acc, x], {})
         return self.engine.calls.dynamic_call(ex, 'ucc', f, [Pack(None)], {})
 
     def _floor_ceil(self, ex, which, args, kwargs):
